@@ -274,10 +274,13 @@ impl Ctx<'_> {
         let f = match r {
             Ok(Ok(Ok(Variable::Function(f)))) => Some(f),
             other => {
-                self.rep.notes.push(format!(
-                    "helper function not accepted: {text}: {:?}",
-                    other.map(|r| r.map(|r| r.map(|v| v.to_string())))
-                ));
+                let why = format!("{:?}", other.map(|r| r.map(|r| r.map(|v| v.to_string()))));
+                self.rep.notes.push(format!("helper function not accepted: {text}: {why}"));
+                // the typed slice helpers have a documented fallback (result `any`); every other helper indexes /
+                // slices / measures a sequence of its documented type: a refusal is a violation
+                if !key.starts_with("slice ") || key.ends_with(" any") {
+                    self.rep.violation(&format!("c09:operator-form-rejected:{key}"), &format!("`{text}` is not accepted: {}", crate::util::truncate(&why, 160)), "c09", text);
+                }
                 None
             }
         };
